@@ -219,23 +219,41 @@ func (s *sys) request(name string) reqSpec {
 			return reqSpec{opts: cat(okMRU, opt(5, u32(0)...), opt(0x63, 1, 2)), nakTypes: map[byte]bool{5: true}, rejOpts: [][]byte{opt(0x63, 1, 2)}}
 		}
 	case "ipcp":
-		addr := func(ip net.IP) []byte { return opt(3, ip...) }
-		switch name {
-		case "RCR(0.0.0.0)":
-			return reqSpec{opts: addr(net.IPv4zero.To4()), nakTypes: map[byte]bool{3: true}, rejOpts: [][]byte{addr(net.IPv4zero.To4())}}
-		case "RCR(assigned)":
-			r := reqSpec{opts: addr(assignedIP)}
-			if s.assigned == nil { // nothing assigned: the request is not acceptable
-				r.nakTypes, r.rejOpts = map[byte]bool{3: true}, [][]byte{addr(assignedIP)}
+		// An IP-Address option is acceptable only if it names the address assigned
+		// to the session; anything else (0.0.0.0, a foreign address, any address
+		// while nothing is assigned) is an offending option that may be Nak'd with
+		// the assigned address or, when there is none to offer, Rejected.
+		vj := opt(2, 0, 0x2d, 15, 1)     // Van Jacobson compression: not supported -> Reject
+		dns0 := opt(129, 0, 0, 0, 0)     // DNS 0.0.0.0: to be Nak'd with the configured server
+		spec := func(ip net.IP, extra ...[]byte) reqSpec {
+			a := opt(3, ip...)
+			r := reqSpec{opts: a, nakTypes: map[byte]bool{}}
+			if s.assigned == nil || !ip.Equal(s.assigned) {
+				r.nakTypes[3] = true
+				r.rejOpts = append(r.rejOpts, a)
+			}
+			for _, e := range extra {
+				r.opts = cat(r.opts, e)
+				switch e[0] {
+				case 2:
+					r.rejOpts = append(r.rejOpts, e)
+				case 129:
+					r.nakTypes[129] = true
+				}
 			}
 			return r
+		}
+		switch name {
+		case "RCR(0.0.0.0)":
+			return spec(net.IPv4zero.To4())
+		case "RCR(assigned)":
+			return spec(assignedIP)
 		case "RCR(other)":
-			return reqSpec{opts: addr(otherIP), nakTypes: map[byte]bool{3: true}, rejOpts: [][]byte{addr(otherIP)}}
-		case "RCR-rej": // Van Jacobson compression: not supported
-			return reqSpec{opts: cat(addr(assignedIP), opt(2, 0, 0x2d, 15, 1)), nakTypes: map[byte]bool{3: s.assigned == nil}, rejOpts: [][]byte{opt(2, 0, 0x2d, 15, 1)}}
-		case "RCR-mixed": // foreign address + DNS 0.0.0.0 (to be Nak'd with the configured DNS) + compression
-			return reqSpec{opts: cat(addr(otherIP), opt(129, 0, 0, 0, 0), opt(2, 0, 0x2d, 15, 1)), nakTypes: map[byte]bool{3: true, 129: true},
-				rejOpts: [][]byte{opt(2, 0, 0x2d, 15, 1)}}
+			return spec(otherIP)
+		case "RCR-rej":
+			return spec(assignedIP, vj)
+		case "RCR-mixed":
+			return spec(otherIP, dns0, vj)
 		}
 	case "ipv6cp":
 		switch name {
@@ -718,7 +736,7 @@ func (r *reg) note(s *sys) {
 		np := strings.Join(s.hist, " ")
 		if !ok || len(s.hist) < len(old.path) || (len(s.hist) == len(old.path) && np < strings.Join(old.path, " ")) {
 			r.seeds[key][c] = seed{path: append([]string(nil), s.hist...), state: s.state(),
-				class: fmt.Sprintf("%s|%d,%d|%v,%v", s.state(), s.crRun, s.trRun, s.acked, s.weAcked)}
+				class: fmt.Sprintf("%s|%v|%v,%v", s.state(), s.crRun+s.trRun >= s.c.maxConf, s.acked, s.weAcked)}
 		}
 	}
 }
